@@ -74,7 +74,7 @@ func (n Node) coq() string {
 func coqMsg(m rueidis.RedisMessage) string {
 	typ, str, hasArr, vals, intlen := rueidis.VerifMsgView(m)
 	at := obs.None
-	if a, ok := rueidis.VerifMsgAttrs(m); ok {
+	if a, ok := rueidis.VerifAccMsgAttrs(m); ok {
 		at = obs.Some(coqMsg(a))
 	}
 	switch {
